@@ -6,12 +6,17 @@
    Part 1: pkg/webhook/conversion/chain.go   (ChainStorage / Chain / FindConversionChain)
    Part 2: pkg/shell-operator/operator.go conversionEventHandler
            + pkg/webhook/conversion/handler.go handleReviewRequest / errored
+   Part 3: the same two functions layer by layer with the TEXT of every message: what
+           conversionEventHandler returns (a conversion.Response or an error), what
+           handleReviewRequest / errored / serveReviewRequest make of it (result.status and
+           result.message of the ConversionReview).  Messages are byte strings.
 
    Encoding.  A version string is "short" or "group/short" (no other '/'): it is the pair
    (option group, short) of dense numbers chosen by the harness, so that Go's string
    equality is structural equality here.  Go maps are modelled by association lists in
    insertion order; every theorem about the search is proved from order-independent
    facts (which valid chain is returned is NOT determined in Go either). *)
+From Coq Require Import String Ascii.
 From Verif Require Import Common.
 
 (* ------------------------------------------------------------------ versions, rules *)
@@ -183,10 +188,11 @@ Inductive outcome :=
 | OExitFail                                         (* non-zero exit: taskHandler answers Fail *)
 | OBadResponse                                      (* unparsable response file: Run fails: Fail *)
 | ONoResponse                                       (* exit 0, empty response file: no task prop *)
-| OResp (msg : option N) (objs : list obj).         (* failedMessage (None = "") and convertedObjects *)
+| OResp (msg : bytes) (objs : list obj).            (* Response.FailedMessage as decoded from the response
+                                                       file ([] = "", i.e. none given) and ConvertedObjects *)
 
 Inductive fmsg :=
-| MHook (m : N)                                     (* the hook's own failedMessage *)
+| MHook (m : bytes)                                 (* the hook's own failedMessage, its bytes *)
 | MHookFailed                                       (* "Hook failed to convert to ..." *)
 | MPropError                                        (* "hook task prop error" *)
 | MNotSuccessful                                    (* "Conversion to ... was not successuful" *)
@@ -225,8 +231,8 @@ Fixpoint steps (desired : version) (chain : list rule) (outs : list outcome) (ob
     match hd OExitFail outs with
     | OExitFail | OBadResponse => ([(r, objs)], StFailed MHookFailed)
     | ONoResponse => ([(r, objs)], StFailed MPropError)
-    | OResp (Some m) _ => ([(r, objs)], StFailed (MHook m))          (* REPAIRED (F4c) *)
-    | OResp None objs' =>
+    | OResp (c :: m) _ => ([(r, objs)], StFailed (MHook (c :: m)))   (* REPAIRED (F4c): FailedMessage != "" *)
+    | OResp [] objs' =>
       if is_done desired objs' then ([(r, objs)], StDone objs')
       else let '(t, s) := steps desired rest (tl outs) objs' in ((r, objs) :: t, s)
     end
@@ -248,4 +254,82 @@ Definition convert (desired : version) (chain : list rule) (outs : list outcome)
       if N.eqb (N.of_nat (length req)) (N.of_nat (length objs)) then (t, Success objs)
       else (t, Failed (MCount (N.of_nat (length objs)) (N.of_nat (length req))))
     end
+  end.
+
+(* ------------------------------------------------------------------ part 3: the texts *)
+
+(* an ASCII literal as bytes *)
+Definition str (s : string) : bytes := map N_of_ascii (list_ascii_of_string s).
+
+Fixpoint uint_bytes (d : Decimal.uint) : bytes :=
+  match d with
+  | Decimal.Nil => []
+  | Decimal.D0 r => 48 :: uint_bytes r | Decimal.D1 r => 49 :: uint_bytes r
+  | Decimal.D2 r => 50 :: uint_bytes r | Decimal.D3 r => 51 :: uint_bytes r
+  | Decimal.D4 r => 52 :: uint_bytes r | Decimal.D5 r => 53 :: uint_bytes r
+  | Decimal.D6 r => 54 :: uint_bytes r | Decimal.D7 r => 55 :: uint_bytes r
+  | Decimal.D8 r => 56 :: uint_bytes r | Decimal.D9 r => 57 :: uint_bytes r
+  end%N.
+Definition dec_text (n : N) : bytes := uint_bytes (N.to_uint n).      (* fmt verb %d of a count *)
+
+(* The text of each message.  [dtext] is request.DesiredAPIVersion exactly as the request
+   spells it (fmt verb %s of a string copies its bytes).  The hook's message is NOT a format:
+   it is copied. *)
+Definition msg_text (dtext : bytes) (m : fmsg) : bytes :=
+  match m with
+  | MHook m => m
+  | MHookFailed => str "Hook failed to convert to " ++ dtext                       (* operator.go:370 *)
+  | MPropError => str "hook task prop error"                                       (* operator.go:382 *)
+  | MNotSuccessful => str "Conversion to " ++ dtext ++ str " was not successuful"  (* operator.go:410 *)
+  | MCount got want =>                                                             (* handler.go:110 *)
+    str "hook returned " ++ dec_text got ++ str " objects instead of " ++ dec_text want
+  | MOther => []
+  end.
+
+(* what conversionEventHandler returns: a conversion.Response or an error *)
+Inductive op_result :=
+| OpResponse (failedMessage : bytes) (objs : list obj)
+| OpError (text : bytes).
+
+(* operator.go:321-413 once more, now with the values it returns *)
+Definition event_handler (dtext : bytes) (desired : version) (chain : list rule) (outs : list outcome)
+           (req : list obj) : list invocation * op_result :=
+  match extract req with
+  | [] => ([], OpResponse (msg_text dtext MNotSuccessful) [])       (* no source version: the loop body never runs *)
+  | _ =>
+    match steps desired chain outs req with
+    | (t, StFailed MPropError) => (t, OpError (msg_text dtext MPropError))          (* return nil, fmt.Errorf(...) *)
+    | (t, StFailed m) => (t, OpResponse (msg_text dtext m) [])      (* &Response{FailedMessage: ...}: generic text, or
+                                                                       response.FailedMessage itself (F4c) *)
+    | (t, StDone objs) => (t, OpResponse [] objs)                   (* &Response{ConvertedObjects: request.Objects} *)
+    | (t, StNotDone) => (t, OpResponse (msg_text dtext MNotSuccessful) [])
+    end
+  end.
+
+(* the ConversionReview answer: result.status and, for Failure, result.message *)
+Inductive review := RSuccess (objs : list obj) | RFailure (message : bytes).
+
+(* handler.go:92-117 handleReviewRequest, :143 errored, :69-74 serveReviewRequest.
+   errors.New(FailedMessage).Error() is FailedMessage, byte for byte; err.Error() of the
+   handler's own error is its text.  [requested] = len(request.Objects) before the event
+   handler ran (F4d). *)
+Definition handle_review (requested : nat) (r : op_result) : review :=
+  match r with
+  | OpError text => RFailure text
+  | OpResponse (c :: m) _ => RFailure (c :: m)
+  | OpResponse [] objs =>
+    if N.eqb (N.of_nat requested) (N.of_nat (length objs)) then RSuccess objs
+    else RFailure (msg_text [] (MCount (N.of_nat (length objs)) (N.of_nat requested)))
+  end.
+
+(* one ConversionReview served *)
+Definition serve (dtext : bytes) (desired : version) (chain : list rule) (outs : list outcome) (req : list obj)
+  : list invocation * review :=
+  let '(t, r) := event_handler dtext desired chain outs req in (t, handle_review (length req) r).
+
+(* the abstract answer of [convert], written out *)
+Definition respond (dtext : bytes) (a : answer) : review :=
+  match a with
+  | Success objs => RSuccess objs
+  | Failed m => RFailure (msg_text dtext m)
   end.
